@@ -6,5 +6,6 @@ import "fv/internal/core"
 var Registry = map[string]func(*core.Ctx){
 	"C01": C01,
 	"C06": C06,
+	"C13": C13,
 	"C17": C17,
 }
